@@ -35,7 +35,8 @@ func init() {
 		ID: "C11",
 		Explanation: "Delivery order under all interleavings of writers and subscribers is a runtime property and is NOT decided. Decided are its structural preconditions: (R11.1) catch-up starts at Seek(requested round), advances with Next and sends exactly the cursor's beacons; a peer refuses only rounds above its head; " +
 			"(R11.2) every subscription has its own fresh bounded queue and single worker that runs the callback for each job in receive order; (R11.3) hand-over: the live callback is registered before the snapshot scan, or the store is re-read after registration, or one lock spans both — NONE holds today (known finding F8a); " +
-			"(R11.4) the enqueue of round r to the subscribers happens inside the critical section that ordered r's append — does NOT hold today (known finding F8b).",
+			"(R11.4) the enqueue of round r to the subscribers happens inside the critical section that ordered r's append — does NOT hold today (known finding F8b); " +
+			"(R11.5) a stored beacon is handed to every subscriber's queue by an unconditional send of that beacon and that subscriber's callback on every path of the dispatch loop (no droppable select arm), and the live callback forwards exactly the beacon it was given.",
 		RuleText:    "one obligation per cursor step, queue/worker pairing and ordering precondition",
 		Assumptions: []string{"bbolt cursors iterate keys in byte order inside one read transaction"},
 		Run:         runC11,
@@ -940,6 +941,65 @@ func runC11(c *Ctx) {
 	ruleFreshWorkerPerCallback(c, "R11.2")
 	ruleHandOver(c, "R11.3")
 	ruleDispatchOrdered(c, "R11.4")
+	ruleDispatchLossless(c, "R11.5")
+}
+
+// R11.5: callbackStore.Put hands the stored beacon to every subscriber queue, unconditionally.
+func ruleDispatchLossless(c *Ctx, rule string) {
+	c.ranRules[rule] = true
+	fn := c.P.Fn("internal/chain/beacon.(*callbackStore).Put")
+	if !c.Anchor(rule, "internal/chain/beacon.(*callbackStore).Put", fn != nil) {
+		return
+	}
+	isQueue := func(v ssa.Value) bool {
+		return hasOrigin(Origins(v), func(o Origin) bool { return o.Kind == "lookup" && strings.HasSuffix(o.Name, ".newJob") }) ||
+			strings.Contains(pathOf(v), ".newJob")
+	}
+	var b ssa.Value = fn.Params[2] // Put(ctx, b)
+	nSend := 0
+	for _, f := range withClosures(fn) {
+		forEachInstr(f, func(_ *ssa.BasicBlock, _ int, in ssa.Instruction) {
+			switch x := in.(type) {
+			case *ssa.Select:
+				for _, st := range x.States {
+					if st.Dir == types.SendOnly && isQueue(st.Chan) {
+						nSend++
+						c.Ok(rule, "subscriber queue send in "+fnShort(f), shortPos(c.P, in), false,
+							"the hand-over to a subscriber queue is an arm of a select: it can lose to another arm (or to default) and the stored beacon is then never delivered to that stream")
+					}
+				}
+			case *ssa.Send:
+				if !isQueue(x.Chan) {
+					return
+				}
+				nSend++
+				fields, isLit := literalFields(x.X)
+				okVal := isLit && canonValue(fields["b"]) == b
+				cbFromRange := isLit && fields["cb"] != nil && hasOrigin(Origins(fields["cb"]), func(o Origin) bool { return o.Kind == "range" })
+				// every iteration that found a queue sends: from the queue lookup's ok edge the loop head is not reachable
+				// without passing the send
+				everyIter := false
+				if f == fn {
+					if ex, isEx := stripConv(x.Chan).(*ssa.Extract); isEx {
+						for _, r := range *ex.Tuple.Referrers() {
+							okEx, isE := r.(*ssa.Extract)
+							if !isE || okEx.Index != 1 {
+								continue
+							}
+							if succ := ifSucc(okEx, true); succ != nil {
+								everyIter = succ == x.Block() || !reachableAvoidingFrom(succ, ex.Block(), func(e edge) bool { return e.to() == x.Block() })
+							}
+						}
+					} else if _, isLk := stripConv(x.Chan).(*ssa.Lookup); isLk {
+						everyIter = true // no comma-ok: the send is straight-line after the lookup
+					}
+				}
+				c.Ok(rule, "subscriber queue send in "+fnShort(f), shortPos(c.P, in), okVal && cbFromRange && everyIter,
+					fmt.Sprintf("unconditional send; carries Put's beacon: %v; carries the ranged subscriber's callback: %v; on every path of an iteration that found the queue: %v", okVal, cbFromRange, everyIter))
+			}
+		})
+	}
+	c.Floor(rule, "sends to subscriber queues in callbackStore.Put", nSend, 1)
 }
 
 func ruleCursorCatchup(c *Ctx, rule string) {
